@@ -19,6 +19,13 @@ func VpC13(a []int) {
 		return
 	}
 	vpReach("accepted")
+	vpC13Check(b, &t, count)
+	vpReach("end")
+}
+
+// vpC13Check compares a decoded packet with an independent expansion of the raw bytes.
+func vpC13Check(b []byte, t *TransportLayerCC, count int) {
+	n := len(b)
 	// ---- independent expansion
 	var types [64]uint16
 	nd := 0
@@ -105,7 +112,97 @@ func VpC13(a []int) {
 	vpAssert("C13.header-fields", t.PacketStatusCount == uint16(count) && t.BaseSequenceNumber == uint16(b[12])<<8|uint16(b[13]) &&
 		t.ReferenceTime == uint32(b[16])<<16|uint32(b[17])<<8|uint32(b[18]) && t.FbPktCount == b[19])
 	vpObserveU64("ndeltas", uint64(len(t.RecvDeltas)))
+}
+
+// VpC13_Skeleton: a[0] selects one of 14 chunk sequences (mixes of run-length,
+// one-bit and two-bit vector chunks, runs longer than the remaining count,
+// vectors overshooting it, chunks ending exactly at the packet end), a[1] the
+// number of surplus octets after the required deltas (negative: missing
+// octets); header fields and all delta octets are symbolic.
+func VpC13_Skeleton(a []int) {
+	chunks, count, need := vpC13Skeleton(a[0])
+	hdr := vpBytes(20)
+	nd := need + a[1]
+	if nd < 0 {
+		nd = 0
+	}
+	deltas := vpBytes(nd)
+	b := vpC13Packet(chunks, count, hdr, deltas)
+	var t TransportLayerCC
+	err := t.Unmarshal(b)
+	if a[1] >= 0 {
+		vpAssert("C13.valid-accepted", err == nil)
+	}
+	if err == nil {
+		vpReach("accepted")
+		vpC13Check(b, &t, count)
+	}
 	vpReach("end")
+}
+
+// VpC13_Run: one run-length chunk with symbolic symbol and symbolic run length
+// (a[0] = status count, run length up to 8191) followed by a[1] delta octets.
+func VpC13_Run(a []int) {
+	count := a[0]
+	w := vpU16() & 0x7fff
+	hdr := vpBytes(20)
+	deltas := vpBytes(a[1])
+	b := vpC13Packet([]uint16{w}, count, hdr, deltas)
+	var t TransportLayerCC
+	if t.Unmarshal(b) == nil {
+		vpReach("accepted")
+		vpC13Check(b, &t, count)
+	}
+	vpReach("end")
+}
+
+func vpC13Skeleton(id int) ([]uint16, int, int) {
+	run := func(sym, n uint16) uint16 { return sym<<13 | n }
+	v1 := func(s ...uint16) uint16 {
+		w := uint16(0x8000)
+		for i, x := range s {
+			w |= x << (13 - uint(i))
+		}
+		return w
+	}
+	v2 := func(s ...uint16) uint16 {
+		w := uint16(0xC000)
+		for i, x := range s {
+			w |= x << (12 - 2*uint(i))
+		}
+		return w
+	}
+	switch id {
+	case 0:
+		return nil, 0, 0
+	case 1:
+		return []uint16{run(1, 3)}, 3, 3
+	case 2:
+		return []uint16{run(2, 2)}, 2, 4
+	case 3:
+		return []uint16{run(0, 5), v1(1, 0, 1, 1, 0, 0, 1, 0, 1, 1, 1, 0, 0, 1)}, 19, 8
+	case 4:
+		return []uint16{v2(0, 1, 2, 1, 0, 2, 1)}, 7, 7
+	case 5:
+		return []uint16{run(2, 2), v1(1, 1, 1, 1, 1, 1, 1, 1, 1, 1, 1, 1, 1, 1), v2(2, 2, 1, 0, 0, 1, 2)}, 23, 4 + 14 + 8
+	case 6:
+		return []uint16{run(0, 5), run(0, 3)}, 8, 0 // chunks end exactly at the packet end
+	case 7:
+		return []uint16{v1(0, 0, 0, 0, 0, 0, 0, 0, 0, 0, 0, 0, 0, 0), run(0, 100)}, 114, 0
+	case 8:
+		return []uint16{v2(1, 2, 1, 0, 0, 0, 0)}, 3, 4 // vector overshooting the status count
+	case 9:
+		return []uint16{run(1, 8000)}, 2, 2 // run longer than what remains: clipped
+	case 10:
+		return []uint16{run(3, 4), run(1, 1)}, 5, 1 // reserved symbol 3: received without delta
+	case 11:
+		return []uint16{run(1, 0), run(2, 1)}, 1, 2 // empty run
+	case 12:
+		return []uint16{v1(1, 1, 1), v1(0, 1)}, 16, 4 // a second vector although the first has spare symbols
+	case 13:
+		return []uint16{v2(2, 0, 0, 0, 0, 0, 2), run(2, 3)}, 10, 2*2 + 3*2
+	}
+	panic("no such skeleton")
 }
 
 // two chunkings of the same status sequence (a[0] selects the pair); header
@@ -162,11 +259,13 @@ func vpC13Packet(chunks []uint16, count int, hdr []byte, deltas []byte) []byte {
 	return b
 }
 
-// VpC13_Chunkings: a[0] = pair of chunkings, a[1] = number of delta octets
+// VpC13_Chunkings: a[0] = pair of chunkings, a[1] = surplus octets after the
+// receive deltas the status sequence requires (both encodings are valid)
 func VpC13_Chunkings(a []int) {
 	ca, cb, count := vpC13Pair(a[0])
+	need := []int{3, 6, 8, 1, 2}[a[0]]
 	hdr := vpBytes(20)
-	deltas := vpBytes(a[1])
+	deltas := vpBytes(need + a[1])
 	var ta, tb TransportLayerCC
 	ea := ta.Unmarshal(vpC13Packet(ca, count, hdr, deltas))
 	eb := tb.Unmarshal(vpC13Packet(cb, count, hdr, deltas))
